@@ -70,6 +70,7 @@ type pkg struct {
 	fset  *token.FileSet
 	files []*ast.File
 	funcs map[string]*ast.FuncDecl // top-level functions (no receiver)
+	meths map[string][]*ast.FuncDecl // methods of the package's types, by name (any receiver)
 	// per file: import alias -> import path
 	imports map[*ast.File]map[string]string
 	fileOf  map[*ast.FuncDecl]*ast.File
@@ -92,7 +93,7 @@ func (a *analyzer) load(dir string) (*pkg, error) {
 	if err != nil {
 		return nil, err
 	}
-	p := &pkg{dir: dir, repo: a.repo, fset: token.NewFileSet(), funcs: map[string]*ast.FuncDecl{}, imports: map[*ast.File]map[string]string{},
+	p := &pkg{dir: dir, repo: a.repo, fset: token.NewFileSet(), funcs: map[string]*ast.FuncDecl{}, meths: map[string][]*ast.FuncDecl{}, imports: map[*ast.File]map[string]string{},
 		fileOf: map[*ast.FuncDecl]*ast.File{}, writes: map[string]map[string]bool{}, busy: map[string]bool{}}
 	for _, e := range ents {
 		n := e.Name()
@@ -124,6 +125,8 @@ func (a *analyzer) load(dir string) (*pkg, error) {
 			if fd, ok := d.(*ast.FuncDecl); ok && fd.Recv == nil {
 				p.funcs[fd.Name.Name] = fd
 				p.fileOf[fd] = f
+			} else if ok {
+				p.meths[fd.Name.Name] = append(p.meths[fd.Name.Name], fd)
 			}
 		}
 	}
@@ -180,6 +183,12 @@ func (p *pkg) kindsIn(n ast.Node, out map[string]bool) {
 			if k, ok := WriterMethods[e.Sel.Name]; ok {
 				out[k] = true
 			}
+			// x.name where the package declares methods called name: any of them may be meant (no type information)
+			for _, md := range p.meths[e.Sel.Name] {
+				for k := range p.kindsOfMethod(md) {
+					out[k] = true
+				}
+			}
 			if e.Sel.Name == "ProcessBulk" {
 				if _, local := p.funcs["ProcessBulk"]; !local {
 					for _, k := range allKinds {
@@ -200,6 +209,22 @@ func (p *pkg) kindsIn(n ast.Node, out map[string]bool) {
 
 func (p *pkg) kindsOfFunc(fd *ast.FuncDecl) map[string]bool {
 	name := fd.Name.Name
+	if m, ok := p.writes[name]; ok {
+		return m
+	}
+	if p.busy[name] || fd.Body == nil {
+		return nil
+	}
+	p.busy[name] = true
+	m := map[string]bool{}
+	p.kindsIn(fd.Body, m)
+	p.busy[name] = false
+	p.writes[name] = m
+	return m
+}
+
+func (p *pkg) kindsOfMethod(fd *ast.FuncDecl) map[string]bool {
+	name := "method " + p.pos(fd)
 	if m, ok := p.writes[name]; ok {
 		return m
 	}
@@ -238,6 +263,11 @@ func (a *analyzer) classify(p *pkg, f *ast.File, e ast.Expr) (string, []string, 
 	case *ast.FuncLit:
 		p.kindsIn(x.Body, m)
 	case *ast.CallExpr:
+		// http.HandlerFunc(h): a conversion
+		if render(x.Fun) == "http.HandlerFunc" && len(x.Args) == 1 && p.imports[f]["http"] == "net/http" {
+			_, ks, err := a.classify(p, f, x.Args[0])
+			return render(e), ks, err
+		}
 		// f(args): a function of the package returning the handler; its whole body (closures included) counts,
 		// and so do the argument expressions
 		id, ok := x.Fun.(*ast.Ident)
@@ -255,17 +285,14 @@ func (a *analyzer) classify(p *pkg, f *ast.File, e ast.Expr) (string, []string, 
 			p.kindsIn(arg, m)
 		}
 	case *ast.SelectorExpr:
-		// method value of a parameter (healthController.Check): outside the package, has no backend.Ledger
-		id, ok := x.X.(*ast.Ident)
-		if !ok {
-			return "", nil, fmt.Errorf("%s: handler expression %s not understood", p.pos(e), render(e))
+		// method value: of a parameter (healthController.Check: outside the package, has no backend.Ledger) or of a
+		// value of a type of the package (its methods of that name are followed by kindsIn)
+		if id, ok := x.X.(*ast.Ident); ok {
+			if _, isImport := p.imports[f][id.Name]; isImport {
+				return "", nil, fmt.Errorf("%s: handler %s comes from another package: not followed", p.pos(e), render(e))
+			}
 		}
-		if _, isImport := p.imports[f][id.Name]; isImport {
-			return "", nil, fmt.Errorf("%s: handler %s comes from another package: not followed", p.pos(e), render(e))
-		}
-		if _, w := WriterMethods[x.Sel.Name]; w {
-			m[WriterMethods[x.Sel.Name]] = true
-		}
+		p.kindsIn(x, m)
 	default:
 		return "", nil, fmt.Errorf("%s: handler expression %s not understood", p.pos(e), render(e))
 	}
